@@ -1,0 +1,136 @@
+//! Verification hooks (feature `verif`, off by default). See /verif/DESIGN.md section 8.
+//!
+//! Thin wrappers over `std::sync::{Mutex, Condvar}` reporting lock acquisitions and releases to an installed hook, so a
+//! harness can record lock orders and drive the real threads through chosen interleavings. With no hook installed (or for
+//! threads the hook does not know) they behave exactly like the primitives they wrap.
+
+use std::ops::{Deref, DerefMut};
+use std::panic::Location;
+use std::sync::atomic::{AtomicUsize, Ordering};
+use std::sync::{Arc, LockResult, PoisonError, RwLock, WaitTimeoutResult};
+use std::time::Duration;
+
+pub trait SyncHook: Send + Sync {
+    /// Called before a lock is requested; may block the calling thread (scheduling point).
+    fn before_lock(&self, lock: usize, created_at: &'static Location<'static>, at: &'static Location<'static>);
+    /// Called once the lock is held.
+    fn after_lock(&self, lock: usize);
+    /// Called after the lock has been released.
+    fn after_unlock(&self, lock: usize);
+}
+
+static HOOK: RwLock<Option<Arc<dyn SyncHook>>> = RwLock::new(None);
+static NEXT_ID: AtomicUsize = AtomicUsize::new(1);
+
+/// Installs (or removes) the hook.
+pub fn install(hook: Option<Arc<dyn SyncHook>>) {
+    *HOOK.write().unwrap() = hook;
+}
+
+fn hook() -> Option<Arc<dyn SyncHook>> {
+    HOOK.read().ok().and_then(|h| h.clone())
+}
+
+#[derive(Debug)]
+pub struct Mutex<T> {
+    inner: std::sync::Mutex<T>,
+    id: usize,
+    created_at: &'static Location<'static>,
+}
+
+pub struct MutexGuard<'a, T> {
+    inner: Option<std::sync::MutexGuard<'a, T>>,
+    id: usize,
+}
+
+impl<T> Mutex<T> {
+    #[track_caller]
+    pub fn new(t: T) -> Self {
+        Mutex {
+            inner: std::sync::Mutex::new(t),
+            id: NEXT_ID.fetch_add(1, Ordering::SeqCst),
+            created_at: Location::caller(),
+        }
+    }
+
+    #[track_caller]
+    pub fn lock(&self) -> LockResult<MutexGuard<'_, T>> {
+        let h = hook();
+        if let Some(h) = &h {
+            h.before_lock(self.id, self.created_at, Location::caller());
+        }
+        let r = self.inner.lock();
+        if let Some(h) = &h {
+            h.after_lock(self.id);
+        }
+        match r {
+            Ok(g) => Ok(MutexGuard { inner: Some(g), id: self.id }),
+            Err(e) => Err(PoisonError::new(MutexGuard { inner: Some(e.into_inner()), id: self.id })),
+        }
+    }
+}
+
+impl<T> Deref for MutexGuard<'_, T> {
+    type Target = T;
+    fn deref(&self) -> &T {
+        self.inner.as_ref().unwrap()
+    }
+}
+
+impl<T> DerefMut for MutexGuard<'_, T> {
+    fn deref_mut(&mut self) -> &mut T {
+        self.inner.as_mut().unwrap()
+    }
+}
+
+impl<T> Drop for MutexGuard<'_, T> {
+    fn drop(&mut self) {
+        if self.inner.take().is_some() {
+            if let Some(h) = hook() {
+                h.after_unlock(self.id);
+            }
+        }
+    }
+}
+
+#[derive(Debug, Default)]
+pub struct Condvar(std::sync::Condvar);
+
+impl Condvar {
+    pub fn new() -> Self {
+        Condvar(std::sync::Condvar::new())
+    }
+
+    pub fn wait<'a, T>(&self, mut guard: MutexGuard<'a, T>) -> LockResult<MutexGuard<'a, T>> {
+        let id = guard.id;
+        let inner = guard.inner.take().unwrap();
+        match self.0.wait(inner) {
+            Ok(g) => Ok(MutexGuard { inner: Some(g), id }),
+            Err(e) => Err(PoisonError::new(MutexGuard { inner: Some(e.into_inner()), id })),
+        }
+    }
+
+    pub fn wait_timeout<'a, T>(
+        &self,
+        mut guard: MutexGuard<'a, T>,
+        dur: Duration,
+    ) -> LockResult<(MutexGuard<'a, T>, WaitTimeoutResult)> {
+        let id = guard.id;
+        let inner = guard.inner.take().unwrap();
+        match self.0.wait_timeout(inner, dur) {
+            Ok((g, t)) => Ok((MutexGuard { inner: Some(g), id }, t)),
+            Err(e) => {
+                let (g, t) = e.into_inner();
+                Err(PoisonError::new((MutexGuard { inner: Some(g), id }, t)))
+            }
+        }
+    }
+
+    pub fn notify_all(&self) {
+        self.0.notify_all()
+    }
+
+    pub fn notify_one(&self) {
+        self.0.notify_one()
+    }
+}
